@@ -222,3 +222,70 @@ extern "C" void harness_class_order_an() {
     (void)p.functions[0].release();
     verif_reach();
 }
+
+// C16 (reference types): classes Foo, Bar (unrelated), Sub extends Foo, each with `public constructor() -> T = default;`
+// P0 = declared type (0 int, 1 Foo, 2 Sub), P1 = value (0 int literal, 1 new Foo(), 2 new Bar(), 3 new Sub(), 4 null),
+// P2 = position (0: initialiser `T vv = <value>;`, 1: assignment `T vv = <neutral>; vv = <value>;`)
+// accepted exactly when the value has the declared type, is an instance of a subclass of it, or is null for a class reference.
+static std::unique_ptr<ClassDeclaration> plainClass(const char* name, const char* base) {
+    auto c = std::make_unique<ClassDeclaration>();
+    c->name = name;
+    if (base) c->baseName = {base};
+    auto ctor = std::make_unique<ConstructorDeclaration>();
+    ctor->isDefault = true;
+    ctor->visibility = Visibility::Public;
+    c->members.push_back(std::move(ctor));
+    c->line = verif_nd_int(); c->column = verif_nd_int();
+    return c;
+}
+static std::unique_ptr<Expression> newOf(const char* cls) {
+    auto ne = std::make_unique<NewExpression>();
+    ne->classType = std::make_unique<NamedType>(std::vector<std::string>{cls});
+    ne->line = verif_nd_int(); ne->column = verif_nd_int();
+    return ne;
+}
+extern "C" void harness_reftypes() {
+    const int dt = verif_param(0), vt = verif_param(1), pos = verif_param(2);
+    static const char* const kCls[3] = {nullptr, "Foo", "Sub"};
+    auto value = [&]() -> std::unique_ptr<Expression> {
+        switch (vt) {
+            case 0: return lit("1", "int");
+            case 1: return newOf("Foo");
+            case 2: return newOf("Bar");
+            case 3: return newOf("Sub");
+            default: { auto n = std::make_unique<NullLiteralExpression>(); n->line = verif_nd_int(); n->column = verif_nd_int(); return n; }
+        }
+    };
+    auto declared = [&]() -> std::unique_ptr<Type> {
+        if (dt == 0) return prim("int");
+        return std::make_unique<NamedType>(std::vector<std::string>{kCls[dt]});
+    };
+    std::vector<std::unique_ptr<Statement>> body;
+    auto d = std::make_unique<VariableDeclaration>();
+    d->name = "vv";
+    d->varType = declared();
+    d->line = verif_nd_int(); d->column = verif_nd_int();
+    if (pos == 0) {
+        d->initializer = value();
+        body.push_back(std::move(d));
+    } else {
+        d->initializer = dt == 0 ? lit("0", "int") : newOf(kCls[dt]);
+        body.push_back(std::move(d));
+        auto as = std::make_unique<AssignmentStatement>();
+        as->name = "vv";
+        as->value = value();
+        as->line = verif_nd_int(); as->column = verif_nd_int();
+        body.push_back(std::move(as));
+    }
+    Program p;
+    p.classes.push_back(plainClass("Foo", nullptr));
+    p.classes.push_back(plainClass("Bar", nullptr));
+    p.classes.push_back(plainClass("Sub", "Foo"));
+    p.functions.push_back(fn_main(std::move(body)));
+    int r = run_analyser(p);
+    bool ok = dt == 0 ? vt == 0 : dt == 1 ? (vt == 1 || vt == 3 || vt == 4) : (vt == 3 || vt == 4);
+    verif_assert(r == (ok ? 0 : 1), "C16: a value is accepted by an initialiser or assignment exactly when it has the declared type, is an instance of a subclass, or is null for a class reference");
+    for (int i = 0; i < 3; ++i) (void)p.classes[i].release();
+    (void)p.functions[0].release();
+    verif_reach();
+}
